@@ -5,6 +5,9 @@ import logging
 
 from han import kamstrup
 from vlib import gen_cosem as C
+from hypothesis import strategies as st
+
+from vlib.pool import PRELUDES, run_prelude
 from vlib.runner import Check, HypClause, Info, fail, guarded
 
 logging.disable(logging.CRITICAL)
@@ -12,6 +15,8 @@ logging.disable(logging.CRITICAL)
 
 def oracle(case) -> Info:
     layout, list_ver, items, pads, apdu_dt, tagged = case[0], case[1], [tuple(i) for i in case[2]], list(case[3]), tuple(case[4]), case[5]
+    prelude = case[6] if len(case) > 6 else "none"
+    run_prelude(prelude)
     body, exp, is_ct = C.kamstrup_body(list_ver, items, pads)
     d_body = guarded(kamstrup.decode_notification_body, body, what="kamstrup.decode_notification_body")
     m = C.dict_mismatch(d_body, exp)
@@ -26,7 +31,7 @@ def oracle(case) -> Info:
         fail(f"decode_frame_content ({layout}, CT={is_ct}): {m}; frame {frame.hex()[:700]}", sig=("ct:" if is_ct else "") + "frame:" + m.split(":")[0][:40])
     cur = any(n.startswith("current_") and v for _c, n, k, v in items if k in ("u32", "u16"))
     en = any(n.endswith("_total") and v for _c, n, k, v in items if k in ("u32", "u16"))
-    classes = [f"layout:{layout}", "CT" if is_ct else "non-CT", "padding" if any(pads) else "no-padding", "apdu:" + ("tagged" if tagged else "untagged")]
+    classes = [f"layout:{layout}", f"prelude:{prelude}", "CT" if is_ct else "non-CT", "padding" if any(pads) else "no-padding", "apdu:" + ("tagged" if tagged else "untagged")]
     return Info(nontrivial=cur and (en or "10s" in layout), classes=tuple(classes), sample={"layout": layout, "ct": is_ct, "body": body.hex()[:120]})
 
 
@@ -43,6 +48,7 @@ def build() -> Check:
             "exactly; others unchanged; texts verbatim; exact key set; manufacturer 'Kamstrup'; frame clock = APDU date-time, body clock = list "
             "element. Non-trivial = >=1 non-zero current and (>=1 non-zero energy or a 10-second list). CT and non-CT classes are counted."
         ),
-        assumptions=["Currents are compared with a relative tolerance of 4*2^-53; factor-of-ten errors are 15 orders of magnitude outside it.", "Only the documented OBIS codes are sent (the decoder maps unknown codes through a table lookup; that is C15's subject)."],
-        clauses=[HypClause("lists", C.kamstrup_list_st, oracle, quick=6000, thorough=300000)],
+        assumptions=[
+            "Before each decode a drawn prelude lets another decoder (or all) process genuine messages in the same process: decoders must not depend on what was decoded before.","Currents are compared with a relative tolerance of 4*2^-53; factor-of-ten errors are 15 orders of magnitude outside it.", "Only the documented OBIS codes are sent (the decoder maps unknown codes through a table lookup; that is C15's subject)."],
+        clauses=[HypClause("lists", st.tuples(C.kamstrup_list_st(), st.sampled_from(PRELUDES)).map(lambda t: tuple(t[0]) + (t[1],)), oracle, quick=6000, thorough=300000)],
     )
